@@ -52,6 +52,22 @@ func vFamily(fam int64) (subj, clip Paths64) {
 		}
 		return Paths64{a, b, c}, nil
 	}
+	if fam == 15 {
+		// straddling: A and B abut on x = xm (A left, B right); A spans the
+		// scanline y = yl on which B's top edge and C's bottom edge lie; C
+		// straddles xm, so its bottom edge runs from inside A across the vertex
+		// (xm, yl) onto B's top edge. A, B subject, C clip. The other y- and
+		// x-relations (ay0 vs by0, ay1 vs cy1, cx1 vs bx1) stay free.
+		xm, yl := vInt("xm", -vB29, vB29), vInt("yl", -vB29, vB29)
+		ax0, cx0, cx1, bx1 := vInt("ax0", -vB29, vB29), vInt("cx0", -vB29, vB29), vInt("cx1", -vB29, vB29), vInt("bx1", -vB29, vB29)
+		ay0, ay1, by0, cy1 := vInt("ay0", -vB29, vB29), vInt("ay1", -vB29, vB29), vInt("by0", -vB29, vB29), vInt("cy1", -vB29, vB29)
+		vAssume(vAnd(vAnd(ax0 < cx0, cx0 < xm), vAnd(xm < cx1, xm < bx1)))
+		vAssume(vAnd(vAnd(ay0 < yl, yl < ay1), vAnd(by0 < yl, yl < cy1)))
+		a := Path64{{ax0, ay0}, {xm, ay0}, {xm, ay1}, {ax0, ay1}}
+		b := Path64{{xm, by0}, {bx1, by0}, {bx1, yl}, {xm, yl}}
+		c := Path64{{cx0, yl}, {cx1, yl}, {cx1, cy1}, {cx0, cy1}}
+		return Paths64{a, b}, Paths64{c}
+	}
 	if fam == 12 {
 		// R(1,2) with the two clip rectangles overlapping in x inside the subject's x-range
 		s, c, d := vRectPos("s", vB29), vRectPos("c", vB29), vRectPos("d", vB29)
